@@ -15,6 +15,8 @@ import (
 	"github.com/coredhcp/coredhcp/logger"
 	"github.com/coredhcp/coredhcp/server"
 	"github.com/sirupsen/logrus"
+	"verifmc/verifsched"
+
 	"golang.org/x/net/ipv4"
 	"golang.org/x/net/ipv6"
 )
@@ -176,3 +178,73 @@ func (x *L4) Close() {
 	x.l.Release()
 	v4mu.Unlock()
 }
+
+// Serve4 pushes the datagrams through the real Serve loop (bufpool.Get -> ReadFrom -> go
+// HandleMsg4) under the cooperative scheduler with the default schedule, so that the call
+// returns when the loop and every handler goroutine have finished. Needs the instrumented
+// build (VERIF_SCHED=1); the caller falls back to Run4 otherwise.
+func Serve4(ifi net.Interface, hs []handler.Handler4, dgrams [][]byte, oobIf int) (out Out) {
+	v4mu.Lock()
+	defer v4mu.Unlock()
+	i := 0
+	io := &server.VerifIO{
+		Sent: func(s server.VerifSent) { out.Sent = append(out.Sent, s) },
+		Recv: func(b []byte) (int, int, *net.UDPAddr, bool) {
+			if i >= len(dgrams) {
+				return 0, 0, nil, false
+			}
+			d := dgrams[i]
+			i++
+			return copy(b, d), oobIf, &net.UDPAddr{IP: net.IPv4zero, Port: 68}, true
+		},
+	}
+	l := server.NewVerifListener4(ifi, hs, io)
+	defer l.Release()
+	server.VerifSetFrameSink(func(f server.VerifFrame) { out.Frames = append(out.Frames, f) })
+	defer server.VerifSetFrameSink(nil)
+	run := verifsched.NewRun(nil)
+	run.Spawn("serve", func() { l.Serve() })
+	run.Start()
+	for t := 0; t < run.NumThreads(); t++ {
+		if p := run.ThreadPanic(t); p != "" {
+			out.Panic = p
+		}
+	}
+	if run.Deadlock {
+		out.Panic = "deadlock: " + fmt.Sprint(run.Blocked)
+	}
+	return
+}
+
+// Serve6 is Serve4 for DHCPv6.
+func Serve6(ifi net.Interface, hs []handler.Handler6, dgrams [][]byte, oobIf int, peer *net.UDPAddr) (out Out) {
+	i := 0
+	io := &server.VerifIO{
+		Sent: func(s server.VerifSent) { out.Sent = append(out.Sent, s) },
+		Recv: func(b []byte) (int, int, *net.UDPAddr, bool) {
+			if i >= len(dgrams) {
+				return 0, 0, nil, false
+			}
+			d := dgrams[i]
+			i++
+			return copy(b, d), oobIf, peer, true
+		},
+	}
+	l := server.NewVerifListener6(ifi, hs, io)
+	defer l.Release()
+	run := verifsched.NewRun(nil)
+	run.Spawn("serve", func() { l.Serve() })
+	run.Start()
+	for t := 0; t < run.NumThreads(); t++ {
+		if p := run.ThreadPanic(t); p != "" {
+			out.Panic = p
+		}
+	}
+	if run.Deadlock {
+		out.Panic = "deadlock: " + fmt.Sprint(run.Blocked)
+	}
+	return
+}
+
+// Instrumented reports whether this binary was built with the scheduler overlay.
+func Instrumented() bool { return os.Getenv("VERIF_SCHED") == "1" }
